@@ -15,6 +15,7 @@ import (
 	"golang.org/x/sync/semaphore"
 
 	"github.com/temporalio/s2s-proxy/common"
+	"github.com/temporalio/s2s-proxy/internal/vhook"
 	"github.com/temporalio/s2s-proxy/metrics"
 )
 
@@ -159,6 +160,7 @@ func (m *muxProvider) Start() {
 					continue connect
 				}
 
+				vhook.At("mux.provider.beforeAdd", "provider", m.name)
 				m.addNewMux(session, conn)
 				metrics.MuxConnectionEstablish.WithLabelValues(m.metricLabels...).Inc()
 			}
